@@ -120,4 +120,4 @@ class ConstantKernel(Kernel):
         if last_dim_is_batch:
             constant = constant.unsqueeze(-1)
 
-        return constant.expand(shape)
+        return constant.expand(torch.broadcast_shapes(constant.shape, shape))
